@@ -47,7 +47,7 @@
      * it "claims more data for this node than it has produced" if ANY of its entries for this node
        exceeds self_seq (Overclaims quantifies over all entries): then it is ignored entirely
      * otherwise C18 does not say which of the contradicting entries counts: a READING of the vector
-       keeps one entry per node (parameter d of Body: d[n] = which of n's entries; first, last, largest
+       keeps one entry per node (d in RecvSV: d[n] = which of n's entries counts; first, last, largest
        and smallest are all readings), and the step must be the merge of SOME reading (the same one for
        local_sv and for "heard"); or the vector is ignored as damaged (HasDup is a kind of Damaged:
        choice "reject"). Mode "impl": the last entry of a node counts (rsv_dict[...] = ... in a loop)
@@ -137,10 +137,12 @@ Decodable(p) == p.k = "sv" /\ Len(p.es) > 0
 \* the well-formed entries of p, and how many of them name node n
 GoodEs(p) == SelectSeq(p.es, Good)
 Occ(es, n) == { i \in 1..Len(es) : es[i].id = n }
-HasDup(p) == \E n \in Nodes : Cardinality(Occ(GoodEs(p), n)) > 1
+HasDupEs(es) == \E i \in 1..Len(es) : \E j \in (i+1)..Len(es) : es[i].id = es[j].id
+HasDup(p) == HasDupEs(GoodEs(p))
 Damaged(p) == (\E i \in 1..Len(p.es) : ~Good(p.es[i])) \/ HasDup(p)
 \* what p says about node n: the sequence numbers of all its well-formed entries for n
-Says(p) == [n \in Nodes |-> { GoodEs(p)[i].seq : i \in Occ(GoodEs(p), n) }]
+SaysEs(es) == [n \in Nodes |-> { es[i].seq : i \in Occ(es, n) }]
+Says(p) == SaysEs(GoodEs(p))
 Overclaims(p, s) == \E i \in 1..Len(p.es) : Good(p.es[i]) /\ p.es[i].id = Self /\ p.es[i].seq > s
 \* sequence numbers of the entries of es (a reading of a vector) that are below the local entry of their node
 OlderEntries(es, l) == { es[i].seq : i \in { j \in 1..Len(es) : l[es[j].id] > es[j].seq } }
@@ -148,8 +150,9 @@ Vec(p) == [n \in Nodes |->
              LET S == { p.es[i].seq : i \in { j \in 1..Len(p.es) : Good(p.es[j]) /\ p.es[j].id = n } }
              IN  IF S = {} THEN 0 ELSE CHOOSE x \in S : \A y \in S : x >= y]
 
-\* Readings. d \in [Nodes -> 1..k]: of the entries for node n the d[n]-th counts. Node ids are distinct in
-\* a reading, so the order of its entries is immaterial (it is given in NodeOrder).
+\* Readings of a vector that names a node more than once. d \in [Nodes -> 1..k]: of the entries for node n
+\* the d[n]-th counts. Node ids are distinct in a reading, so the order of its entries is immaterial
+\* (Resolve gives it in NodeOrder).
 Max1(x) == IF x > 1 THEN x ELSE 1
 Rank(es, i) == Cardinality({ j \in 1..i : es[j].id = es[i].id })
 LastReading(es) == [n \in Nodes |-> Max1(Cardinality(Occ(es, n)))]
@@ -207,20 +210,32 @@ Count == nev' = IF MaxEv = 0 THEN 0 ELSE nev + 1
 More == MaxEv = 0 \/ nev < MaxEv
 
 \* last.sup: the step started in Suppress
-\* es: the reading of p the step took (meaningful when acc). och: p over-claims, but not in the entries a
-\* reader who keeps the last entry of every node sees. again / againA: p is the packet most recently ignored / accepted
+\* es: the reading of p the step took (meaningful when acc). For a vector that names a node twice (dup):
+\*   rdg     the accepted vector v is a reading of what the packet says: for every node one of the sequence
+\*           numbers the packet lists for it (0 for a node it does not list)
+\*   notmax  ... and not the entry-wise largest reading
+\*   och     p over-claims, but not in the entries a reader who keeps the last entry of every node sees
+\* again / againA: p is the packet most recently ignored / accepted
 LastRecv(p, acc, r, es) ==
-  [a |-> "RecvSV", n |-> r, acc |-> acc, dec |-> Decodable(p), dmg |-> Damaged(p),
-   oc |-> Overclaims(p, selfSeq), v |-> (IF acc THEN Merge(Zero, es) ELSE Vec(p)), sup |-> (state = "Suppress"),
-   old |-> OlderEntries(es, local) # {}, old0 |-> 0 \in OlderEntries(es, local),
-   says |-> Says(p), dup |-> HasDup(p),
-   och |-> (Overclaims(p, selfSeq) /\ ~(\E i \in 1..Len(Resolve(GoodEs(p), LastReading(GoodEs(p)))) :
-                                          LET e == Resolve(GoodEs(p), LastReading(GoodEs(p)))[i]
-                                          IN  e.id = Self /\ e.seq > selfSeq)),
-   again |-> (Remember /\ p = mem.rej), againA |-> (Remember /\ p = mem.acc)]
+  LET ges == GoodEs(p)
+      dup == HasDupEs(ges)
+      older == OlderEntries(es, local)
+      oc == Overclaims(p, selfSeq)
+      v == IF acc /\ dup THEN Merge(Zero, es) ELSE Vec(p)
+  IN  [a |-> "RecvSV", n |-> r, acc |-> acc, dec |-> Decodable(p),
+       dmg |-> (dup \/ \E i \in 1..Len(p.es) : ~Good(p.es[i])),
+       oc |-> oc, v |-> v, sup |-> (state = "Suppress"),
+       old |-> older # {}, old0 |-> 0 \in older,
+       dup |-> dup,
+       rdg |-> ((acc /\ dup) => \A n \in Nodes : LET S == SaysEs(ges)[n]
+                                                  IN  IF S = {} THEN v[n] = 0 ELSE v[n] \in S),
+       notmax |-> (acc /\ dup /\ Newer(Vec(p), v)),
+       och |-> (dup /\ oc /\ LET lst == Resolve(ges, LastReading(ges))
+                             IN  ~(\E i \in 1..Len(lst) : lst[i].id = Self /\ lst[i].seq > selfSeq)),
+       again |-> (Remember /\ p = mem.rej), againA |-> (Remember /\ p = mem.acc)]
 LastOther(a, n) == [a |-> a, n |-> n, acc |-> FALSE, dec |-> FALSE, dmg |-> FALSE, oc |-> FALSE, v |-> Zero,
                     sup |-> (state = "Suppress"), old |-> FALSE, old0 |-> FALSE,
-                    says |-> [x \in Nodes |-> {}], dup |-> FALSE, och |-> FALSE, again |-> FALSE, againA |-> FALSE]
+                    dup |-> FALSE, rdg |-> TRUE, notmax |-> FALSE, och |-> FALSE, again |-> FALSE, againA |-> FALSE]
 
 Ignore(p, r) ==
   /\ UNCHANGED <<local, selfSeq, state, heard, agg>>
@@ -296,8 +311,10 @@ RecvSV(p, j, c, r) ==
   /\ c \in RecvChoices(p)
   /\ LET hopeless == p.k # "sv" \/ p.es = <<>> \/ OverclaimIn(WithId(p.es), selfSeq)
          ges == GoodEs(p)
-     IN  \E d \in (IF Mode = "impl" \/ hopeless \/ c # "norm" THEN {LastReading(ges)} ELSE AllReadings(ges)) :
-           LET es == Resolve(ges, d)
+         dup == HasDupEs(ges)
+     IN  \E d \in (IF ~dup THEN {[n \in Nodes |-> 1]}
+                   ELSE IF Mode = "impl" \/ hopeless \/ c # "norm" THEN {LastReading(ges)} ELSE AllReadings(ges)) :
+           LET es == IF dup THEN Resolve(ges, d) ELSE ges
                raises == ~hopeless /\ Merge(local, es) # local
            IN  /\ (hopeless \/ state = "Suppress") => j = 0
                /\ ~raises => r = 0      \* the reaction is part of the stimulus only where the callback can fire
@@ -395,12 +412,11 @@ Monotone == [][\A n \in Nodes : local'[n] >= local[n]]_vars
 \* "the local state vector is the entry-wise maximum of its previous value and every accepted
 \*  received vector"; a decodable, undamaged vector that does not over-claim must be accepted,
 \*  an undecodable or over-claiming one must not, and nothing but RecvSV / Publish moves the vector;
-\*  the accepted vector (last'.v) is a reading of what the packet says: for every node one of the
-\*  sequence numbers the packet lists for it (exactly that number when the packet names the node once)
+\*  the accepted vector last'.v is what the packet says (Vec) - for a packet that names a node more than
+\*  once, one of its readings (last'.rdg)
 EntrywiseMax ==
   [][ /\ (IsRecv /\ last'.acc) => local' = [MaxV(local, last'.v) EXCEPT ![Self] = selfSeq']
-      /\ (IsRecv /\ last'.acc) => \A n \in Nodes : IF last'.says[n] = {} THEN last'.v[n] = 0
-                                                                            ELSE last'.v[n] \in last'.says[n]
+      /\ (IsRecv /\ last'.acc) => last'.rdg
       /\ (IsRecv /\ ~CbPub) => selfSeq' = selfSeq
       /\ (IsRecv /\ ~last'.acc) => local' = local
       /\ (IsRecv /\ last'.dec /\ ~last'.dmg /\ ~last'.oc) => last'.acc
@@ -510,7 +526,7 @@ Witnesses ==
       \* a vector that over-claims in an entry that is not the last one for this node, and would raise another entry
       /\ Seen(23, IsRecv /\ last'.och /\ \E n \in Others : last'.v[n] > local[n])
       \* a reading that does not take the largest entry of a node (what the library does: the last entry counts)
-      /\ Seen(24, IsRecv /\ last'.dup /\ last'.acc /\ \E n \in Nodes : \E x \in last'.says[n] : x > last'.v[n])
+      /\ Seen(24, IsRecv /\ last'.notmax)
       \* (Remember only) the vector that was ignored last time is repeated and now raises an entry
       /\ Seen(25, IsRecv /\ last'.again /\ last'.acc /\ missed' = 1)
       \* (Remember only) the vector that was accepted last time is repeated, is outdated now and starts suppression
